@@ -9,6 +9,48 @@ NOTE = ("Trusted: Lean 4.33 kernel (axioms propext, Classical.choice, Quot.sound
         "differential correspondence streams named here (agreement on generated inputs, not a proof of the tie). ")
 
 CLAIMS = {
+ 'C01': dict(
+   text="Lean theorems for any instance list, any interval number, any accepted dictionary, every key with a scale, any track count: chord_pitches (Key.Apply "
+        "= bass first: 60+tonic+degree+bass-12, then 60+tonic+degree+each interval of the symbol, in uint8 arithmetic always and without wrap inside the MIDI "
+        "range; sizes are the textbook sizes of C15), tones_inherit (parent's tones transitively, from C16), note_ons_by_instance (the note-ons of the whole "
+        "reference timeline are, instance by instance, exactly the note-ons of that chord in the key in force; rests, settings, note-offs contribute none), "
+        "key_in_force (most recent key at or before the chord, else the start key), flag_key_first_instance_only + prepared_tail_unchanged (--key replaces "
+        "the first instance's key only), default C; composed with the C06 refinement these are statements about the tracks crd writes. Tie: 2,000 (30,000) "
+        "generated documents (degrees 1..15 and altered/compound, all symbols and long names, basses, key changes on chords and rests, --key, 1..32 tracks, "
+        "~15% malformed incl. out-of-range chords) through the real `crd write`, byte comparison with the model; 600 (8,000) user dictionaries.",
+   note="Out-of-range chords (uint8 wrap, gomidi's clamp to 127) are modelled and tied, but outside the property.",
+   technique="Lean 4 proof: refinement + induction over instances (Opt-cell writer = specification loop) + modular arithmetic; differential tie on SMF bytes", ref="6 (C01)"),
+ 'C02': dict(
+   text="Lean theorems for an ARBITRARY tick function (hence independent of rounding), any instance list, any track count: starts_gapless (first instance at "
+        "0, each starts where the previous ended), total_is_sum, timeline_by_instance (settings at the instance's start, all note-ons at its start, all "
+        "note-offs at start+length, nothing else), ons_offs_same_keys, rest_is_silent, release_before_strike (in the reference timeline, hence in every "
+        "track's order-preserving share, an instance's releases precede the next instance's strikes, also at equal ticks). Rounding clause: see level_note. "
+        "Tie: 6,000 (140,000) adversarial duration lists through the real midix writer vs the exact soft-float model (bit-identical ticks), op histories, documents.",
+   note="ROUNDING CLAUSE: the model computes Go's float64 arithmetic exactly (soft-float on Nat/Int, tied bit-for-bit); the theorem that the result is a nearest "
+        "integer of 960*v on FloatSafe inputs is in Crd/Props/C02Float.lean when present, otherwise that clause rests on the tie only. Outside FloatSafe the "
+        "clause is false of the code (known finding D17).",
+   technique="Lean 4 proof: invariant/refinement by induction for any tick function; exact soft-float model of Go's arithmetic tied bit-for-bit", ref="6 (C02)"),
+ 'C07': dict(
+   text="Lean theorems: first_instance_states_all (tempo, meter, key signature of the first instance or the defaults 100, 4/4, C, then its texts), "
+        "later_instance_exactly_its_settings, text_calls, settings_at_instance_start (the setting events of the whole timeline are, instance by instance, that "
+        "instance's settings stamped with its start tick, for any list; on chords and on rests alike), flags_override_first_instance, payloads: meter "
+        "[n, log2 d, 8, 8] for every n and power-of-two d < 256, key signature sf/mi = conventional signature (C13 spec) for all 28 keys, text/lyric/marker = "
+        "exact UTF-8 bytes, tempo = 3 big-endian bytes of gomidi's value, which equals round-half-up(60,000,000/bpm) for every bpm in 4..1000 (kernel "
+        "evaluation of the float model; partial), dynamics_monotone, velocity_persists. Tie: tempo payloads for 2,000 (40,000) bpm values through gomidi; "
+        "2,000 (30,000) documents with settings on every kind of instance and every flag subset through `crd write`, byte comparison.",
+   note="Unrepresentable values (meter denominators that are not powers of two or > 255, bpm 1..3 or > 6e7) are silently altered by gomidi: known finding D12; "
+        "the model reproduces them and the tie compares them.",
+   technique="Lean 4 proof: induction over instances + kernel decide on payload tables; differential tie on SMF bytes", ref="6 (C07)"),
+ 'C08': dict(
+   text="Lean theorems about the tracks the model of `crd write` produces, for any document, 1..65535 tracks, any instrument/program: track_count, "
+        "one_eot_and_last, timing_meta_only_in_first_track (every meta event is routed to track 0), notes_paired_per_track (per track and instance, the "
+        "note-offs are for exactly the keys and routing indices of the note-ons, in order), header_bytes (MThd, 6, format 0 iff one track, count, division). "
+        "The strict SMF reader (Crd.Spec.parseSMF, written from the specification, shares no code with the encoder or gomidi) is executed on the REAL bytes of "
+        "every generated file on every run, together with the note-balance and first-track checks (oracle smf-strict). Tie: byte equality of real output and "
+        "model encoder over 2,000 (30,000) documents x 1..32 tracks x instrument/program flags.",
+   note="gomidi's serialiser is modelled (Crd/Model/Smf.lean) and tied by bytes, not verified. The byte-level theorem 'parseSMF (encode tracks) = ok' is in "
+        "Crd/Props/C08Bytes.lean when present.",
+   technique="Lean 4 proof: refinement invariants on abstract tracks + independent strict reader executed on real bytes; differential tie on SMF bytes", ref="6 (C08)"),
  'C06': dict(
    text="Lean theorems, for EVERY instance list, every track count 1..65535, every instrument/program: end-to-end refinement write_refines (induction over "
         "the op history with the invariant 'every track's clock + writer pending = reference time'): track i holds exactly the events of the piece's "
